@@ -43,6 +43,7 @@ pub fn nontramp_htlc(npay: usize) -> impl Strategy<Value = HtlcSpec> {
             2 => Just((false, Meta::Absent, false)),         // final hop without TLV 16
             1 => Just((false, Meta::NotUtf8, false)),
             1 => Just((false, Meta::NotBolt11, false)),
+            3 => garbage_invoice_strategy().prop_map(|g| (false, Meta::GarbageInvoice(g), false)),
             2 => Just((false, Meta::BadSig, false)),
             2 => Just((false, Meta::Normal, true)),          // invoice of another hash
             2 => any::<bool>().prop_map(|b| (false, Meta::LenPrefixed { with_invoice: b }, false)),
